@@ -80,6 +80,6 @@ def run(pid, tier, replay=None):
     layout_leg(c, pid, x)
     trace_leg(c, pid, x, 1500 if tier == "thorough" else 250)
     c.cov["exhaustive"] = True
-    c.cov["rule"] = "715 registries enumerated production by production (every definition kind and primitive, ids over the 8 compact-size boundaries, absent/empty/1/64-byte/multi-byte strings, vectors of 0/1/2/64 elements, non-dense ids): format lemmas model-checked, each replayed on real encode/decode; plus random registries (hostile strings, ill-formed ids, near-miss pairs, trailing junk) validated by TLC against EncReg/DecReg (C06) or the round-trip history acceptor (C07)"
+    c.cov["rule"] = "registries enumerated production by production (every definition kind and primitive, ids over the 8 compact-size boundaries, absent/empty/1/64-byte/multi-byte strings, every sequence-valued part with 0/1/2/63/64/255/256/257 elements and the entry vector / tuple members / docs also with >= 1100, non-dense ids): format lemmas model-checked, each replayed on real encode/decode; plus random registries (hostile strings, ill-formed ids, near-miss pairs, trailing junk) validated by TLC against EncReg/DecReg (C06) or the round-trip history acceptor (C07)"
     c.assumptions += ["inputs < 64 KiB", "TLC, harness projection (proj.rs, public constructors only) and serde_json trusted"]
     return c.finish()
